@@ -8,7 +8,7 @@ P = {
  "C01": (True, "enum", "exploration",
    "bounded-exhaustive enumeration of token/argument/expression/structure sequences, nestings and single/double character edits, in 3 parser configurations, with a panic/hang oracle and a one-sided structural rejection oracle",
    "Every input of the stated alphabets and lengths is parsed in every configuration: the call must return, an Err must carry a message, and inputs an independent structural checker marks as definitely outside the language must be rejected. Exhaustive within the bounds printed in the evidence; the right level because the property is a totality statement over inputs and every known defect has a witness of <= 3 tokens.",
-   "panic=unwind build of the crates; 30 s per-case hang watchdog; abort = machinery failure; nesting <= 32",
+   "panic=unwind build of the crates; 60 s per-case hang watchdog; abort = machinery failure; nesting <= 32",
    "DESIGN.md §5 C01"),
  "C04": (True, "progen+refliquid", "model_checking",
    "exhaustive enumeration of all programs up to a node bound over a reused name alphabet; each execution compared with an independent reference interpreter (model) and the caller's data deep-compared",
